@@ -505,6 +505,40 @@ theorem hist_wrap_inside (P : Params K) (hfl : IsFloor P.fl) (hpad : 0 < P.pad) 
   rw [e2, e3]
   exact wrap_inside P.fl hfl P.pad hpad c.box hdet c.pbc c.pos
 
+/-- **hist_wrap_full**: on an object whose cell went through the setter (`Clean`, true for every `Box`), a `wrap`
+    of a fully periodic system at any point of any history leaves the box exactly as it was, every atom inside it,
+    and the flags reconstruct the old positions — no clean-up hypothesis needed (`zeroSmall_idem`). -/
+theorem hist_wrap_full (P : Params K) (hfl : IsFloor P.fl) (hpad : 0 < P.pad) (ht0 : 0 ≤ P.tiny) (ht1 : P.tiny < 1)
+    (ops : List (Op K)) (c0 : CSys K) (h0 : Coherent c0) (hc0 : Clean P.tiny c0)
+    (hdet : M3.det (runC P c0 ops).1.box.vects ≠ 0) (hp : (runC P c0 ops).1.pbc = ⟨true, true, true⟩) :
+    let c := (runC P c0 ops).1
+    let w := c.wrapC P
+    w.2.box = c.box ∧ (∀ p' ∈ w.2.pos, insideRel (c.box.cartToRel p')) ∧
+    List.zipWith (fun p' f => p' + latticeVec c.box.vects f) w.2.pos w.1 = c.pos := by
+  intro c w
+  have hclean : Clean P.tiny c := clean_runC P ht0 ht1 ops c0 hc0
+  have hb : (wrap P.fl P.pad c.box c.pbc c.pos).box = c.box := by
+    have : c.pbc = ⟨true, true, true⟩ := hp
+    rw [this]; exact wrap_box_full _ _ _ _
+  have hcl : zeroSmall P.tiny (wrap P.fl P.pad c.box c.pbc c.pos).box.vects
+      = (wrap P.fl P.pad c.box c.pbc c.pos).box.vects := by rw [hb]; exact hclean
+  have hin := hist_wrap_inside P hfl hpad ops c0 h0 hdet hcl
+  have hrec := (hist_wrap_reconstruct P ops c0 h0 hdet).1
+  obtain ⟨_, _, hc⟩ := runC_erase P ops c0 h0
+  obtain ⟨_, w2, _⟩ := wrapC_spec P c hc
+  have e3 : w.2.box = c.box := by
+    show (c.wrapC P).2.box = _
+    have : (c.wrapC P).2.box = (c.erase.wrapS P).2.box := by rw [← w2]; rfl
+    rw [this]
+    show (⟨zeroSmall P.tiny (wrap P.fl P.pad c.box c.pbc c.pos).box.vects,
+      (wrap P.fl P.pad c.box c.pbc c.pos).box.origin⟩ : Box K) = _
+    rw [hcl, hb]
+  refine ⟨e3, ?_, hrec⟩
+  intro p' hp'
+  have := hin p' hp'
+  rw [e3] at this
+  exact this
+
 /-- **normalizeS_eq_normalize**: `normalize` on the object is the function `normalize?` of the visible state
     whenever the clean-up of the `vects` setter is inactive at its three writes (reversed cell, rebuilt cell,
     wrapped cell): every `normalize_*` theorem then holds for the object at any point of any history. -/
@@ -588,6 +622,8 @@ example : let c := (runC exPar exSys exHist).1
 /-- … and fails where a component is below `tiny` of the largest one: the setter does remove it. -/
 example : zeroSmall exPar.tiny ⟨⟨4, 0, 0⟩, ⟨1/1000000000, 4, 0⟩, ⟨0, 0, 4⟩⟩ = (⟨⟨4, 0, 0⟩, ⟨0, 4, 0⟩, ⟨0, 0, 4⟩⟩ : M3 ℚ) := by
   decide +kernel
+example : Clean exPar.tiny exSys := by unfold Clean; decide +kernel
+example : (0 : ℚ) ≤ exPar.tiny ∧ exPar.tiny < 1 := by decide +kernel
 /-- the normalize observed in the history is the function `normalize?` of the visible state. -/
 example : (exSys.normalizeC exPar).map (fun z => (z.box, z.pos, z.flags, z.transform)) =
     (normalize? exPar.fl exPar.pad exPar.sqrt exSys.box exSys.pbc exSys.pos).map
